@@ -108,12 +108,19 @@ def view(obj):
     return out
 
 
+class AccessorRaised(Exception):
+    """Reading an observable of an accepted object raised (other than the documented
+    NotImplementedError of generalized orbitals): the object is in an inconsistent state."""
+
+
 def read_on_copy(obj, name):
     c = copy.deepcopy(obj)
     try:
         return getattr(c, name)
     except NotImplementedError:
         return "NotImplemented"
+    except Exception as exc:  # noqa: BLE001
+        raise AccessorRaised(f"reading {name} raises {type(exc).__name__}: {exc}") from exc
 
 
 class Model:
@@ -253,11 +260,17 @@ def run_ops(trace, with_observer=True, check=True):
                 v1 = getattr(obj, name)
             except NotImplementedError:
                 v1 = "NotImplemented"
+            except Exception as exc:  # noqa: BLE001
+                v1 = ("raises", type(exc).__name__)
+                if check:
+                    out.append(_v("I0_accessor_crashes", f"reading {name} raises {type(exc).__name__}: {exc}", trace, k, model.stale()))
             mid = view(obj)
             try:
                 v2 = getattr(obj, name)
             except NotImplementedError:
                 v2 = "NotImplemented"
+            except Exception as exc:  # noqa: BLE001
+                v2 = ("raises", type(exc).__name__)
             after = view(obj)
             if name in ("atcorenums", "charge"):
                 model.materialise()
@@ -299,7 +312,11 @@ def run_ops(trace, with_observer=True, check=True):
                         if (a in ("charge", "nelec") and op["kwargs"].get("nelec") is not None and op["kwargs"].get("charge") is not None
                                 and model.ideal_cores() is not None):
                             continue  # over-determined (cores, charge and nelec all given): one of them has to give
-                        got = read_on_copy(obj, a)
+                        try:
+                            got = read_on_copy(obj, a)
+                        except AccessorRaised as exc:
+                            out.append(_v("I0_accessor_crashes", str(exc), trace, k, model.stale()))
+                            continue
                         if not _close(got, op["kwargs"][a]):
                             out.append(_v("I2_readback", f"constructed with {a}={op['kwargs'][a]} but it reads {got}", trace, k, model.stale()))
             continue
@@ -308,7 +325,11 @@ def run_ops(trace, with_observer=True, check=True):
         attr, v = op["attr"], op["value"]
         before = view(obj)
         val = make_value(attr, v)
-        cores_before = read_on_copy(obj, "atcorenums")
+        try:
+            cores_before = read_on_copy(obj, "atcorenums")
+        except AccessorRaised as exc:
+            out.append(_v("I0_accessor_crashes", str(exc), trace, k, model.stale()))
+            return out, mut_outcomes, None, info
         try:
             setattr(obj, attr, val)
             raised = None
@@ -338,11 +359,15 @@ def run_ops(trace, with_observer=True, check=True):
             if attr in ("nelec", "spinpol") and obj.mo is not None:
                 out.append(_v("I4_assignment_accepted_with_mo", f"{attr}={v} accepted although orbitals are present", trace, k, model.stale()))
             if attr in ("charge", "nelec", "spinpol"):
-                got = read_on_copy(obj, attr)
+                try:
+                    got = read_on_copy(obj, attr)
+                    cores_after = read_on_copy(obj, "atcorenums")
+                except AccessorRaised as exc:
+                    out.append(_v("I0_accessor_crashes", str(exc), trace, k, model.stale()))
+                    return out, mut_outcomes, None, info
                 if obj.mo is None or attr == "charge":
                     if not _close(got, v):
                         out.append(_v("I2_readback", f"{attr}={v} assigned but it reads back {got}", trace, k, model.stale()))
-                cores_after = read_on_copy(obj, "atcorenums")
                 if canon.canon(cores_before) != canon.canon(cores_after):
                     out.append(_v("I2_cores_changed", f"assigning {attr}={v} changed the core charges {cores_before} -> {cores_after}", trace, k, model.stale()))
         model.assign(attr, v)
